@@ -180,6 +180,9 @@ Lemma fold_upd_length : forall A (g : nat -> A -> A) is (L : list A),
   length (fold_left (fun L i => upd_nth i (g i) L) is L) = length L.
 Proof. intros A g is. induction is as [|i t IH]; intros L; cbn; [reflexivity | rewrite IH, upd_nth_length; reflexivity]. Qed.
 
+Lemma iter_succ_r : forall A (f : A -> A) k x, Nat.iter (S k) f x = Nat.iter k f (f x).
+Proof. intros A f k x. induction k as [|k IH]; cbn; [reflexivity|]. cbn in IH. rewrite IH. reflexivity. Qed.
+
 Lemma fold_upd_nth : forall A (d : A) (g : nat -> A -> A) is (L : list A) j, j < length L ->
   nth j (fold_left (fun L i => upd_nth i (g i) L) is L) d = Nat.iter (cnt j is) (g j) (nth j L d).
 Proof.
@@ -187,7 +190,7 @@ Proof.
   rewrite IH by (rewrite upd_nth_length; exact Hj).
   rewrite upd_nth_nth by exact Hj.
   destruct (Nat.eqb j i) eqn:E; cbn; [|reflexivity].
-  apply Nat.eqb_eq in E. subst i. rewrite Nat.iter_succ_r. reflexivity.
+  apply Nat.eqb_eq in E. subst i. rewrite <- iter_succ_r. reflexivity.
 Qed.
 
 Fixpoint zcount (c : Z) (l : list Z) : nat :=
@@ -200,35 +203,26 @@ Lemma filter_eqb_length : forall c l, length (filter (Z.eqb c) l) = zcount c l.
 Proof. intros c l. induction l as [|x t IH]; cbn; [reflexivity|]. destruct (Z.eqb c x); cbn; rewrite IH; reflexivity. Qed.
 
 Lemma cnt_effects_from : forall tbl s c j,
-  cnt j (effects_from s tbl c) =
-  if (s <=? j) && (j <? s + length tbl) then zcount c (compartments_of (nth (j - s) tbl default_spec)) else 0.
+  (s <= j < s + length tbl ->
+   cnt j (effects_from s tbl c) = zcount c (compartments_of (nth (j - s) tbl default_spec)))
+  /\ (~ (s <= j < s + length tbl) -> cnt j (effects_from s tbl c) = 0).
 Proof.
-  induction tbl as [|sp t IH]; intros s c j; cbn.
-  - destruct (s <=? j) eqn:E1; cbn; [|reflexivity]. destruct (j <? s + 0) eqn:E2; [|reflexivity].
-    apply Nat.leb_le in E1. apply Nat.ltb_lt in E2. lia.
-  - rewrite cnt_app, cnt_const, filter_eqb_length, IH.
-    destruct (Nat.eqb j s) eqn:E.
-    + apply Nat.eqb_eq in E. subst j. rewrite Nat.sub_diag.
-      assert (H1 : (S s <=? s) = false) by (apply Nat.leb_gt; lia). rewrite H1. cbn.
-      assert (H2 : (s <=? s) = true) by (apply Nat.leb_le; lia).
-      assert (H3 : (s <? s + S (length t)) = true) by (apply Nat.ltb_lt; lia).
-      rewrite H2, H3. cbn. lia.
-    + apply Nat.eqb_neq in E.
-      destruct (s <=? j) eqn:E1.
-      * apply Nat.leb_le in E1.
-        assert (H1 : (S s <=? j) = true) by (apply Nat.leb_le; lia). rewrite H1. cbn.
-        destruct (j <? S s + length t) eqn:E2.
-        -- apply Nat.ltb_lt in E2. assert (H3 : (j <? s + S (length t)) = true) by (apply Nat.ltb_lt; lia). rewrite H3.
-           destruct (j - s) as [|k] eqn:E4; [lia|]. replace (j - S s) with k by lia. reflexivity.
-        -- apply Nat.ltb_ge in E2. assert (H3 : (j <? s + S (length t)) = false) by (apply Nat.ltb_ge; lia). rewrite H3. reflexivity.
-      * apply Nat.leb_gt in E1. assert (H1 : (S s <=? j) = false) by (apply Nat.leb_gt; lia). rewrite H1. reflexivity.
+  induction tbl as [|sp t IH]; intros s c j.
+  - split; [cbn [length]; lia | reflexivity].
+  - cbn [effects_from length]. rewrite cnt_app, cnt_const, filter_eqb_length.
+    destruct (IH (S s) c j) as [IH1 IH2]. destruct (Nat.eqb j s) eqn:E.
+    + apply Nat.eqb_eq in E. subst j. split; [|lia]. intros _.
+      rewrite IH2 by lia. rewrite Nat.sub_diag. cbn [nth]. lia.
+    + apply Nat.eqb_neq in E. split; intro H.
+      * rewrite IH1 by lia. destruct (j - s) as [|k] eqn:E4; [lia|]. replace (j - S s) with k by lia. reflexivity.
+      * rewrite IH2 by lia. reflexivity.
 Qed.
 
 Lemma cnt_effects : forall tbl c j, j < length tbl ->
   cnt j (effects tbl c) = zcount c (compartments_of (nth j tbl default_spec)).
 Proof.
-  intros tbl c j Hj. unfold effects. rewrite cnt_effects_from. cbn.
-  assert (H : (j <? length tbl) = true) by (apply Nat.ltb_lt; exact Hj). rewrite H, Nat.sub_0_r. reflexivity.
+  intros tbl c j Hj. unfold effects. destruct (cnt_effects_from tbl 0 c j) as [H _].
+  rewrite H by lia. rewrite Nat.sub_0_r. reflexivity.
 Qed.
 
 (* number of handler calls a locus receives for a list of (current) compartments *)
@@ -247,15 +241,15 @@ Qed.
 
 Lemma iter_plus : forall A (f : A -> A) a b x, Nat.iter (a + b) f x = Nat.iter b f (Nat.iter a f x).
 Proof.
-  intros A f a b x. induction b as [|b IH]; cbn; [rewrite Nat.add_0_r; reflexivity|].
-  rewrite Nat.add_succ_r. cbn. rewrite IH. reflexivity.
+  intros A f a b x. rewrite Nat.add_comm. induction b as [|b IH]; [reflexivity|].
+  change (f (Nat.iter (b + a) f x) = f (Nat.iter b f (Nat.iter a f x))). rewrite IH. reflexivity.
 Qed.
 
 Lemma run_handlers_nth : forall tbl h cs L j, length L = length tbl -> j < length tbl ->
   nth j (run_handlers tbl h cs L) [] =
   Nat.iter (hits (nth j tbl default_spec) cs) (h (nth j tbl default_spec)) (nth j L []).
 Proof.
-  intros tbl h cs. unfold run_handlers. induction cs as [|c t IH]; intros L j HL Hj; cbn; [reflexivity|].
+  intros tbl h cs. unfold run_handlers. induction cs as [|c t IH]; intros L j HL Hj; cbn [fold_left hits]; [reflexivity|].
   destruct c as [c|].
   - rewrite IH by (rewrite ?fold_upd_length; assumption).
     rewrite (fold_upd_nth _ [] (fun i => h (nth i tbl default_spec))) by (rewrite HL; exact Hj).
